@@ -35,11 +35,61 @@ pub(crate) fn decode(
     reference: &[u8],
     data: &[u8],
 ) -> Result<Vec<Vec<u8>>, Box<dyn std::error::Error + Send + Sync>> {
+    // validate the RLE stream before handing it to `bitfield_rle`, which indexes past the end
+    // of truncated input and allocates whatever size the stream announces
+    checked_rle_len(data)?;
+
     // decode the RLE encoding first
     let buf = bitfield_rle::decode(data)?;
 
     // decode the delta-encoding
     delta_decode(reference, &buf)
+}
+
+/// The largest size a legitimate payload can decode to: a full window of pending inputs
+/// (`PENDING_OUTPUT_SIZE` = 128), each a `u16` length prefix plus at most `u16::MAX` bytes.
+const MAX_DECODED_LEN: usize = 128 * (2 + u16::MAX as usize);
+
+/// Walks the run-length stream exactly as `bitfield_rle::decode` will, but with bounds and
+/// overflow checks, and returns the decoded length. Rejects truncated varints, literal runs that
+/// reach past the end of the data and streams that decode to more than a packet can carry.
+fn checked_rle_len(data: &[u8]) -> Result<usize, Box<dyn std::error::Error + Send + Sync>> {
+    let mut offset = 0;
+    let mut decoded_len = 0usize;
+
+    while offset < data.len() {
+        // read one varint (7 bits per byte, least significant group first)
+        let mut value = 0u64;
+        let mut shift = 0u32;
+        loop {
+            let byte = *data.get(offset).ok_or("truncated run length")?;
+            offset += 1;
+            if shift > 28 {
+                return Err("run length too large".into());
+            }
+            value |= u64::from(byte & 127) << shift;
+            shift += 7;
+            if byte & 128 == 0 {
+                break;
+            }
+        }
+
+        let repeat = value & 1 == 1;
+        let run = if repeat { value >> 2 } else { value >> 1 } as usize;
+        decoded_len += run;
+        if decoded_len > MAX_DECODED_LEN {
+            return Err("decoded input larger than any legitimate packet".into());
+        }
+        if !repeat {
+            // a literal run: the bytes follow in the stream
+            offset += run;
+            if offset > data.len() {
+                return Err("literal run reaches past the end of the data".into());
+            }
+        }
+    }
+
+    Ok(decoded_len)
 }
 
 fn delta_decode(
